@@ -18,7 +18,7 @@ pub fn def() -> CheckDef {
         },
         gen,
         run,
-        rule: "seeded histories (<= 30 ops) in which about half of the path arguments are near-misses: missing parent, wrong type both ways, existing name, non-empty storage, root removal, paths escaping the root, invalid names, out-of-range seeks, set_storage_clsid on a stream, setters on a missing path - at every point of a history, also while handles hold unflushed data. For every call refused with NotFound / AlreadyExists / InvalidInput: the image hash is unchanged (write calls made during a refused call are counted as a probe, not judged - the property speaks of the bytes), and the rest of the history still agrees with the model. Every tenth case is a stale-handle scenario (src/stale.rs): a single call through a handle whose stream was removed that is refused (NotFound / InvalidInput) must leave the bytes, the handle's len() and its position as they were. Non-trivial: >= 1 refused call checked and >= 1 successful mutation; distinct = distinct (seam log, final image) hash.",
+        rule: "seeded histories (<= 30 ops) in which about half of the path arguments are near-misses: missing parent, wrong type both ways, existing name, non-empty storage, root removal, paths escaping the root, invalid names, out-of-range seeks, set_storage_clsid on a stream, setters on a missing path - at every point of a history, also while handles hold unflushed data. For every call refused with NotFound / AlreadyExists / InvalidInput: the image hash is unchanged (write calls made during a refused call are counted as a probe, not judged - the property speaks of the bytes), and the rest of the history still agrees with the model. One case in 16 starts from a file laid out by the independent writer whose directory entries carry legal bytes the library never writes itself (arbitrary units behind each name's terminator; in V3 arbitrary high halves of the stream size fields), with 50-80 % near-miss arguments and tripled weights for the metadata setters. Every tenth case is a stale-handle scenario (src/stale.rs): a single call through a handle whose stream was removed that is refused (NotFound / InvalidInput) must leave the bytes, the handle's len() and its position as they were. Non-trivial: >= 1 refused call checked and >= 1 successful mutation; distinct = distinct (seam log, final image) hash.",
         assumptions: &["reference model as C01 decides which calls must be refused"],
         cpu_limit_s: 300,
         fault_kinds: "none (seam-level write counter is the oracle)",
@@ -43,6 +43,53 @@ pub fn gen(seed: u64, idx: u64, _tier: Tier) -> Case {
         c.ops = crate::stale::gen_ops(&mut rng);
         return c;
     }
+    if idx % 16 == 5 {
+        // a file by another writer whose directory entries hold legal bytes the library itself
+        // would never write (units behind the name's terminator, V3: the unused high half of the
+        // size field): a refused call that REWRITES an entry "unchanged" changes those bytes
+        let version = if rng.chance(1, 2) { 3 } else { 4 };
+        let mut c = Case::new("C10", "foreign-near-miss", version);
+        c.bufsize = *rng.pick(gen::BUFSIZES);
+        let mut plan = crate::imgwr::plan_from_seed(rng.next_u64(), version);
+        plan.v3_size_high_garbage = version == 3;
+        plan.name_slack_garbage = true;
+        plan.library_like_trees = rng.chance(1, 2);
+        let (max_entries, max_stream) = (rng.range(3, 20) as usize, 9000usize);
+        let content_seed = rng.next_u64();
+        c.init = crate::case::Init::Foreign { content_seed, max_entries, max_stream, plan };
+        let mut crng = Rng::new(content_seed);
+        let mut content = crate::imgwr::gen_content(&mut crng, max_entries, max_stream);
+        content.root.meta.created = 0;
+        let model = crate::model::Model::from_dump(&content, version);
+        let mut pool: Vec<String> = model.all_paths().into_iter().filter_map(|(p, _)| p.last().cloned()).take(10).collect();
+        pool.extend(crate::names::gen_pool(&mut rng, crate::names::NameClass::Ascii, 3));
+        let cfg = gen::GenCfg {
+            max_ops: 30,
+            names: pool,
+            sizes: gen::draw_sizes(&mut rng, 9000, if version == 3 { 512 } else { 4096 }),
+            near_miss: *rng.pick(&[50u32, 65, 80]),
+            spellings: 0,
+            case_variants: *rng.pick(&[0u32, 20]),
+            weights: common::join_weights(common::join_weights(gen::c01_weights(), gen::handle_weights()), {
+                let mut m = gen::meta_weights();
+                for e in m.iter_mut() {
+                    e.1 *= 3;
+                }
+                m
+            }),
+            max_objects: 60,
+            max_depth: 6,
+            invalid_names: true,
+            protect_handles: true,
+            max_stream: 9000,
+            no_remove_with_open_handles: false,
+            set_len_shrink_only: false,
+        };
+        let n = rng.range(4, 30) as usize;
+        let mut g = gen::Gen::new(&mut rng, &cfg, model);
+        c.ops = g.history(n);
+        return c;
+    }
     let k = Knobs { max_ops: 30, near_miss: &[35, 50, 65], invalid_names: true, ..DEFAULT_KNOBS };
     let w = match rng.below(3) {
         0 => gen::c01_weights(),
@@ -57,6 +104,9 @@ pub fn run(case: &Case, known: &BTreeSet<String>) -> Outcome {
         return crate::stale::run(case, crate::stale::Judge { property: "C10", image: false, bystanders: false, refusals: true });
     }
     let mut o = runner::run_history(case, &flags(), known);
+    if case.mode == "foreign-near-miss" {
+        o.stats.probe("foreign_base_with_slack_bytes_in_entries");
+    }
     // Second clause of the property: "every subsequently observable result is the same as if the
     // call had not been made".  A divergence from the model counts for C10 only if it goes
     // away when the refused calls are taken out of the history; otherwise it has nothing to do
